@@ -161,3 +161,28 @@ extern "C" void selftest_utils() {
   Path64 s = SimplifyPath(z, 2.0, false); out_i64(s.size()); for (auto& q : s) out_i64(q.x);
   Path64 d = RamerDouglasPeucker(z, 2.0); out_i64(d.size()); for (auto& q : d) out_i64(q.x);
 }
+
+// C20: StripNearEqual - the result starts with the first point, is an in-order subsequence, has no two consecutive points closer
+// than the tolerance, and (closed) does not end within the tolerance of its first point unless only that point is left
+#ifndef SNN
+#define SNN 5
+#endif
+#ifndef SNR
+#define SNR 4
+#endif
+extern "C" void harness_stripnearequal() {
+  Point64 pts[SNN]; Path64 path;
+  for (int i = 0; i < SNN; ++i) pts[i] = Point64(nd_range(-SNR, SNR), nd_range(-SNR, SNR));
+  path.assign(pts, pts + SNN);
+  double tol = nondet_double(); ASSUME(tol >= 0.0 && tol <= 64.0);
+  bool closed = nondet_bool();
+  Path64 r = StripNearEqual(path, tol, closed);
+  int m = (int)r.size(); VA(m >= 1 && m <= SNN); ASSUME(m >= 1 && m <= SNN);
+  Point64 rp[SNN]; for (int k = 0; k < SNN; ++k) if (k < m) rp[k] = r[k];
+  VA(rp[0] == pts[0]);
+  int j = 0;                                   // in-order subsequence
+  for (int k = 0; k < SNN; ++k) { if (k >= m) break; while (j < SNN && !(pts[j] == rp[k])) ++j; VA(j < SNN); ++j; }
+  for (int k = 0; k + 1 < SNN; ++k) { if (k + 1 >= m) break; int64_t dx = rp[k].x - rp[k + 1].x, dy = rp[k].y - rp[k + 1].y; VA(!((double)(dx * dx + dy * dy) < tol)); }
+  if (closed && m > 1) { int64_t dx = rp[m - 1].x - rp[0].x, dy = rp[m - 1].y - rp[0].y; VA(!((double)(dx * dx + dy * dy) < tol)); }
+  verif_reach();
+}
